@@ -69,6 +69,11 @@ def loopFuel {σ ρ : Type} (body : σ → Res (LStep σ ρ)) : Nat → σ → R
   match x[i]? with
   | some v => .ok v.toNat
   | none => .panic site
+/-- `v[i]` on a `Vec<u32>` -/
+@[inline] def idxN (x : List Nat) (i : Nat) (site : String) : Res Nat :=
+  match x[i]? with
+  | some v => .ok v
+  | none => .panic site
 /-- `x[i] = v` -/
 @[inline] def setIdx (x : Bytes) (i v : Nat) (site : String) : Res Bytes :=
   if i < x.length then .ok (x.set i (UInt8.ofNat v)) else .panic site
